@@ -541,6 +541,130 @@ impl Model for ReceiverModel {
     }
 }
 
+/// X3: **write-buffer fill sweep**. With the transport blocked the codec's write buffer is filled, octet by octet, to every
+/// level around the point where it stops accepting frames; then two streams and the connection owe the peer a WINDOW_UPDATE.
+/// Whatever "codec full, come back later" path the updates take, after the transport opens every window must be back.
+pub fn fill_sweep_one(vectored: bool, fill: usize, verbose: bool) -> Vec<(String, String, String)> {
+    let mut v = vec![];
+    let mut sb = server::Builder::new();
+    sb.initial_window_size(20_000);
+    let cfg = T2Cfg { role: Side::Server, peer_settings: vec![], client: None, server: Some(sb), policy: IoPolicy { vectored, ..IoPolicy::default() } };
+    let mut t = T2::new(&cfg, vec![]);
+    let mut panics = vec![];
+    for sid in [1u32, 3, 5] {
+        t.peer_request(sid, "/f", false);
+    }
+    t.drive(100);
+    t.peer_ack_settings();
+    t.drive(100);
+    // the peer uses 12 000 of the 20 000 octets on streams 3 and 5; the application reads and holds them
+    let flag = Flag::new(false);
+    let wk = waker_of(&flag);
+    let mut cx = Context::from_waker(&wk);
+    for sid in [3u32, 5] {
+        t.peer_send(&wf::data(sid, &vec![0xaa; 12_000], false));
+    }
+    t.drive(100);
+    let mut held = BTreeMap::new();
+    for sid in [3u32, 5] {
+        if let Some(b) = accepted_mut(&mut t, sid).and_then(|a| a.body.as_mut()) {
+            let mut n = 0usize;
+            loop {
+                match guarded(&mut panics, "poll_data", || b.poll_data(&mut cx)) {
+                    Some(Poll::Ready(Some(Ok(d)))) => n += d.len(),
+                    _ => break,
+                }
+            }
+            held.insert(sid, n);
+        }
+    }
+    // transport blocked: a response on stream 1 fills the write buffer with `fill` octets of inline DATA frames
+    t.sh.lock().unwrap().set_write_blocked(Side::Server, true);
+    let chunk = if vectored { 250 } else { 1000 };
+    if let Some(a) = accepted_mut(&mut t, 1) {
+        if let Some(mut r) = a.respond.take() {
+            if let Some(Ok(mut ss)) = guarded(&mut panics, "send_response", || r.send_response(simple_response(200), false)) {
+                let mut left = fill;
+                while left > 0 {
+                    // every DATA frame costs 9 octets of head
+                    let take = left.min(chunk + 9);
+                    if take <= 9 {
+                        break;
+                    }
+                    let _ = guarded(&mut panics, "send_data", || ss.send_data(bytes::Bytes::from(vec![0x55u8; take - 9]), false));
+                    left -= take;
+                }
+                a.send = Some(ss);
+            }
+        }
+    }
+    t.drive(100);
+    // now the releases: two stream-level updates and one for the connection become due while the buffer is that full
+    for sid in [3u32, 5] {
+        let n = held.get(&sid).copied().unwrap_or(0);
+        if let Some(b) = accepted_mut(&mut t, sid).and_then(|a| a.body.as_mut()) {
+            let _ = guarded(&mut panics, "release_capacity", || b.flow_control().release_capacity(n));
+        }
+    }
+    t.drive(100);
+    t.sh.lock().unwrap().set_write_blocked(Side::Server, false);
+    {
+        let w = t.sh.lock().unwrap().blocked_writers[Side::Server.idx()].take();
+        if let Some(w) = w {
+            w.wake();
+        }
+    }
+    t.conn_flag.wake_by_ref_pub();
+    t.drive(300);
+    t.catch_up();
+    let pv = peer_view(&t);
+    for sid in [3u32, 5] {
+        if held.get(&sid).copied().unwrap_or(0) == 12_000 && pv.vs(sid) != pv.acked_initial && t.conn_alive() {
+            v.push(("C03.stream-window-leaked".to_string(), "fill-sweep".into(), format!("write buffer filled with {} octets (vectored {}): the application released all 12000 octets of stream {}, the transport has opened again and everything is quiescent, yet the peer sees a window of {} instead of {}", fill, vectored, sid, pv.vs(sid), pv.acked_initial)));
+        }
+    }
+    if t.conn_alive() && pv.v0() < 65535 - 24_000 / 2 {
+        v.push(("C03.connection-window-leaked".into(), "fill-sweep".into(), format!("write buffer filled with {} octets (vectored {}): 24000 octets were released, the peer sees a connection window of {}", fill, vectored, pv.v0())));
+    }
+    if verbose {
+        println!("fill {} vectored {}: peer view conn {} stream3 {} stream5 {} (initial {})\n{}", fill, vectored, pv.v0(), pv.vs(3), pv.vs(5), pv.acked_initial, t.mon.transcript().lines().rev().take(12).collect::<Vec<_>>().into_iter().rev().collect::<Vec<_>>().join("\n"));
+    }
+    t.panics.extend(panics);
+    for p in t.finish() {
+        v.push(("C03.panic".into(), "fill-sweep".into(), format!("fill {} vectored {}: panic {}", fill, vectored, p.lines().next().unwrap_or(""))));
+    }
+    v
+}
+
+pub fn fill_sweep(out: &mut Outcome, vios: &mut VioSet, quick: bool) {
+    // the buffer holds 16384 octets and stops accepting frames when fewer than 1033 (vectored I/O: 265) are free; the sweep
+    // covers every fill level from well below to beyond that point (head octets of the response HEADERS frame shift the
+    // exact position by a few octets, which the range absorbs)
+    let mut jobs: Vec<(bool, usize)> = vec![];
+    let pad = if quick { 120 } else { 700 };
+    for fill in (16384 - 1033 - pad)..=(16384 - 1033 + 40) {
+        jobs.push((false, fill));
+    }
+    for fill in (16384 - 265 - pad)..=(16384 - 265 + 40) {
+        jobs.push((true, fill));
+    }
+    let found = std::sync::Mutex::new(vec![]);
+    par_for(jobs.len(), |i| {
+        let vs = fill_sweep_one(jobs[i].0, jobs[i].1, false);
+        if !vs.is_empty() {
+            found.lock().unwrap().push((jobs[i], vs));
+        }
+    });
+    for ((vectored, fill), vs) in found.into_inner().unwrap() {
+        for (rule, sig, what) in vs {
+            vios.add(Violation { rule, signature: sig, what, replay: json!({"harness": "c03.fill", "vectored": vectored, "fill": fill}) });
+        }
+    }
+    out.harness("write-buffer-fill-sweep", json!({"cases": jobs.len(), "fill_levels": format!("{}..={} (non-vectored), {}..={} (vectored)", 16384 - 1033 - pad, 16384 - 1033 + 40, 16384 - 265 - pad, 16384 - 265 + 40)}));
+    out.add_count("evaluations", jobs.len() as u64);
+    out.add_count("traces_validated_against_impl", jobs.len() as u64);
+}
+
 pub fn run(ctx: &Ctx) -> Outcome {
     let mut out = Outcome::default();
     let quick = ctx.tier.is_quick();
@@ -553,12 +677,22 @@ pub fn run(ctx: &Ctx) -> Outcome {
     out.add_sample(json!({"harness": format!("x2.{}", m.name), "depth": 3, "choices": [1, 3, 9]}));
     out.assume("stream whose RecvStream was dropped while it stays open: only the connection window is required to return (scope decision in DESIGN.md 3/C03)");
     out.guard_nonzero("data octets received", out.coverage.get("mechanism_counters").and_then(|m| m.get("data_octets_received")).and_then(|v| v.as_u64()).unwrap_or(0));
-    out.violations = rep.agg.vios.into_vec();
+    let mut vs = VioSet::default();
+    vs.merge(rep.agg.vios);
+    fill_sweep(&mut out, &mut vs, quick);
+    out.violations = vs.into_vec();
     out
 }
 
 pub fn replay(v: &serde_json::Value) -> Option<bool> {
     let h = v["harness"].as_str().unwrap_or("");
+    if h == "c03.fill" {
+        let vs = fill_sweep_one(v["vectored"].as_bool().unwrap_or(false), v["fill"].as_u64().unwrap_or(0) as usize, true);
+        for (r, _, w) in &vs {
+            println!("RULE VIOLATED: {} {}", r, w);
+        }
+        return Some(!vs.is_empty());
+    }
     for quick in [true, false] {
         let m = ReceiverModel::new(if quick { "receiver-q" } else { "receiver-t" }, quick);
         if h == format!("x2.{}", m.name) {
